@@ -127,6 +127,10 @@ fn classify(case: &Case, obs: &mut Obs) {
     if let Task::CSvc { cpos, cneg, .. } = case.task {
         obs.class_if(cpos != cneg, "unequal_class_weights");
     }
+    let max_off = case.offset.iter().fold(0.0f64, |m, o| m.max(o.abs()));
+    obs.class_if(max_off > 0.0, "offset_data");
+    obs.class_if(max_off >= 1000.0 && case.single, "offset_1e3_f32");
+    obs.class_if(max_off >= 1e7, "offset_ge_1e7_f64");
     obs.class_if(case.eps < 1e-4, "eps_1e-5");
     obs.class_if(case.eps >= 1e-4, "eps_1e-3");
     obs.class_if(case.n() >= 500, "n_ge_500");
